@@ -47,6 +47,15 @@ theorem eval_meets_c11 (e : Expr) (hl : LitsOk e = true) (hdef : c11Eval e ≠ .
 theorem c11Eval_type_sound (e : Expr) (v : Val) (h : c11Eval e = .val v) : v.uns = isUns e :=
   c11Eval_uns e v h
 
+/-- `pre_expr_uns_p` (`c2mir.c:3479`, model `c2mStaticUns`: the structural static typing `eval` applies to
+the NOT-selected arm of `?:`) computes the C11 type of the expression: per operator — operand type for
+unary `+ - ~`, left operand for shifts, `int` for `!`, comparisons, `&&`, `||`, either operand for the
+other binary operators and for the two arms of `?:`.  Together with `c11Eval_type_sound` this is the type
+of every value C11 computes.  Model-vs-code on this function: exhaustive `cond_arm_family` in
+`checks/c09.py`. -/
+theorem staticUns_is_c11_type (e : Expr) (hl : LitsOk e = true) : c2mStaticUns appliedFixes e = isUns e :=
+  c2mStaticUns_eq allFixes e (clean_allFixes e hl)
+
 private def iLit (n : Nat) : Expr := .lit (.int .dec n .none)
 private def uLit (n : Nat) : Expr := .lit (.int .dec n .u)
 private def neg1 : Expr := .un .neg (iLit 1)
@@ -93,6 +102,11 @@ example :
                       (.bin .add (uLit 7) (.bin .mul neg1 (iLit 2))) (uLit 9)
     LitsOk e = true ∧ c11Eval e = .val ⟨true, 5#64⟩ ∧ c2mEval e = c11Eval e := by decide
 example : LitsOk wCond = true ∧ LitsOk wLit = true ∧ LitsOk wWchar = true ∧ c11Eval wCond ≠ .undef := by decide
+-- the type of a shift follows its left operand only: `(1 ? -1 : (0 << 1u)) > 0` is false
+example : c2mStaticUns appliedFixes (.bin .shl (iLit 0) (uLit 1)) = false ∧
+    c2mStaticUns appliedFixes (.bin .shr (uLit 8) (iLit 1)) = true ∧
+    c2mEval (.bin .gt (.cond (iLit 1) neg1 (.bin .shl (iLit 0) (uLit 1))) (iLit 0)) = .val ⟨false, 0#64⟩ := by
+  decide
 -- non-vacuity of the diagnostic case: division by zero is reported by both, not in a skipped operand
 example : c11Eval (.bin .div (iLit 1) (iLit 0)) = .divZero ∧ c2mEval (.bin .div (iLit 1) (iLit 0)) = .divZero ∧
     c11Eval (.bin .land (iLit 0) (.bin .div (iLit 1) (iLit 0))) = .val ⟨false, 0#64⟩ := by decide
